@@ -143,7 +143,9 @@ def judge(ck, traces, stats):
             # it occurs in no input outside the class
             tags = []
             if cls in ("plain", "partial", "merkle", "beneath-merkle", ""):
-                if e.get("k") == "Key" and e.get("kf", "exact") != "exact":
+                # (the form of the key object can only explain what a lookup answers, not how a bag is built)
+                if (e.get("k") == "Key" and e.get("kf", "exact") != "exact"
+                        and (reason in ("present-key-error", "absent-key-proved", "returned-value", "panic") or reason.startswith("value:"))):
                     tags.append("kf")
                 if multi_level_pruned(r["cells"]):
                     tags.append("mlp")
